@@ -33,6 +33,11 @@ from ufl.classes import BaseFormOperator, Coefficient, Constant, Index, Label, M
 from ufl.corealg.traversal import pre_traversal
 from ufl.domain import AbstractDomain
 
+try:  # present since the signature of base form operators includes their data
+    from ufl.algorithms.signature import compute_base_form_operator_hashdata as _bfo_hashdata
+except ImportError:
+    _bfo_hashdata = None
+
 PID = "C12"
 
 # --------------------------------------------------------------------------------------------------
@@ -148,12 +153,16 @@ def _norm(t, data):
 def trace(form, cap=20000):
     """Pre-order trace of every integrand: operators by class name, terminals with their signature data."""
     integrands = [itg.integrand() for itg in form.integrals()]
-    th = compute_terminal_hashdata(integrands, form._compute_renumbering())
+    renumbering = form._compute_renumbering()
+    th = compute_terminal_hashdata(integrands, renumbering)
     out = []
     for n, e in enumerate(integrands):
         for t in pre_traversal(e):
             if t._ufl_is_terminal_:
-                out.append([type(t).__name__, _norm(t, th[t])])
+                out.append([type(t).__name__, _norm(t, th[t]), str(th[t])])
+            elif isinstance(t, BaseFormOperator) and _bfo_hashdata is not None:
+                # base form operators carry data besides their operands (function space, derivatives, ...)
+                out.append([type(t).__name__, str(_bfo_hashdata(t, renumbering))])
             else:
                 out.append([type(t).__name__, ""])
             if len(out) > cap:
@@ -164,6 +173,10 @@ def trace(form, cap=20000):
 
 def diagnose(ref_trace, cur_trace):
     """Where does the signature input differ: a terminal's own data, or the operand order."""
+    raw_a = [x[2] for x in ref_trace if len(x) > 2]
+    raw_b = [x[2] for x in cur_trace if len(x) > 2]
+    ref_trace = [x[:2] for x in ref_trace]
+    cur_trace = [x[:2] for x in cur_trace]
     a = sorted(tuple(x) for x in ref_trace if x[1] != "")
     b = sorted(tuple(x) for x in cur_trace if x[1] != "")
     if a != b:
@@ -185,6 +198,8 @@ def diagnose(ref_trace, cur_trace):
     for x, y in zip(ref_trace, cur_trace):
         if tuple(x) != tuple(y):
             return "structure:" + "/".join(sorted({x[0], y[0]}))
+    if raw_a != raw_b:
+        return "data:MultiIndex-numbering"
     return "other"
 
 
@@ -310,12 +325,19 @@ def run_state(state, names, twice):
         if now[c] != BASE[c] + d.get(c, 0):
             raise RuntimeError(f"shift events are not independent: state {state} gives {now}, base {BASE}")
     res = []
-    for name in names:
+    for name in names[:-1]:
         o = forked(_observe_checked, name, twice)
         if o.get("need_trace"):
             o = forked(_observe_traced, name, twice)
         o.pop("usage", None)
         res.append(o)
+    # nobody else needs this process image: the last form is built right here (saves one fork per state)
+    o = _observe_traced(names[-1], twice)
+    if "exc" not in o and o["sig"] == REF[names[-1]]["sig"] and (not twice or o["sig2"] == REF[names[-1]]["sig"]):
+        o.pop("trace", None)
+        o.pop("trace2", None)
+    o.pop("usage", None)
+    res.append(o)
     return res
 
 
@@ -523,14 +545,14 @@ def check_sequential(run, res, label, witness_extra, same_history=None):
 # --------------------------------------------------------------------------------------------------
 # start value sets (absolute next-counter values; shift k = value - base)
 # --------------------------------------------------------------------------------------------------
-USER_K = [0, 1, 8, 9, 10, 90, 99, 100, 990]  # the k set of the design (shifts)
+USER_K = [0, 1, 8, 9, 10, 90, 99, 100, 990]  # the k set of the design (shifts = number of throw-away objects)
 DENSE = sorted(set(range(0, 13)) | set(range(88, 102)) | set(range(988, 1002)))  # singles (thorough), absolute
-SINGLE_QUICK = [1, 8, 9, 10, 11, 90, 98, 99, 100, 990, 999, 1000]  # singles (quick), absolute
-PAIR_QUICK = [9, 10, 99]  # absolute starts
-PAIR_FULL = [1, 5, 8, 9, 10, 11, 90, 95, 98, 99, 100, 990, 998, 999, 1000]  # absolute starts
+PAIR_QUICK = [9, 99]  # absolute starts
+PAIR_FULL = [1, 8, 9, 10, 90, 99, 100, 990, 999]  # absolute starts
 MULTI_QUICK = [9, 99]  # absolute starts for states shifting >= 3 counters (quick)
-MULTI_FULL = [9, 10, 99, 100]  # ... (thorough)
-IRRELEVANT = [9, 99]  # absolute starts at which forms NOT consuming the shifted class are also checked
+MULTI_FULL = [9, 10, 99]  # ... (thorough)
+IRRELEVANT_QUICK = [9]  # absolute starts at which forms NOT consuming the shifted class are also checked
+IRRELEVANT_FULL = [9, 99]
 
 
 def ks_for(counter, absolute, extra_shifts=()):
@@ -538,6 +560,19 @@ def ks_for(counter, absolute, extra_shifts=()):
     ks = {a - base for a in absolute if a > base}
     ks |= {k for k in extra_shifts if k > 0}
     return sorted(ks)
+
+
+def _tree_stamp():
+    """Fingerprint of the ufl sources; the fresh interpreters must import the same tree as this process."""
+    root = os.path.dirname(os.path.abspath(ufl.__file__))
+    st = []
+    for d, _, files in os.walk(root):
+        for f in files:
+            if f.endswith(".py"):
+                q = os.path.join(d, f)
+                s = os.stat(q)
+                st.append((q, s.st_mtime_ns, s.st_size))
+    return hash(tuple(sorted(st)))
 
 
 def _progress(run, msg):
@@ -553,6 +588,7 @@ def main(argv):
     if run.args.replay:
         return replay(run)
     quick = not run.thorough()
+    stamp = _tree_stamp()
     compute_reference(names)
     _progress(run, "reference done")
     run.transitions += len(names)
@@ -564,11 +600,12 @@ def main(argv):
     # ---- single-counter states -------------------------------------------------------------------
     # every form that consumes objects of class X: all start values of the single set;
     # forms that do not consume X ("irrelevant" counter): start values 9 and 99 only (+ the whole sweep)
-    single_set = SINGLE_QUICK if quick else DENSE
+    single_set = [] if quick else DENSE
+    irrelevant_set = IRRELEVANT_QUICK if quick else IRRELEVANT_FULL
     plan = {(): list(names)}
     for c in COUNTERS:
-        irrelevant_ks = ks_for(c, IRRELEVANT)
-        for k in ks_for(c, single_set, USER_K):
+        irrelevant_ks = ks_for(c, irrelevant_set)
+        for k in sorted(set(ks_for(c, single_set, USER_K)) | set(irrelevant_ks)):
             forms = [n for n in names if c in support[n] or k in irrelevant_ks]
             if forms:
                 plan[((c, k),)] = forms
@@ -653,6 +690,8 @@ def main(argv):
     for seed, out in zip(seeds_all, procs):
         check_fresh(run, seed, out, names)
         check_sequential(run, out["sequential"], f"hashseed={seed}/sequential", {"seed": seed}, seq_here)
+    if _tree_stamp() != stamp:
+        raise RuntimeError("the ufl source tree changed while C12 was running; fresh interpreters saw other code")
     if len(set(run.extra["hash_probes"].values())) < 3:
         raise RuntimeError("hash seeds did not take effect in the fresh interpreters")
 
@@ -664,7 +703,7 @@ def main(argv):
         "form.signature() is compared with the zero history. Per form, the COMPLETE product of start-value sets "
         "over the counters the form consumes (measured) is enumerated: all single-counter starts of the single "
         "set, all pairs over the pair set, all r>=3 subsets over the multi set (the other counters at base); "
-        "counters a form does not consume are shifted at starts 9 and 99 and over the whole sweep range; plus "
+        "counters a form does not consume are shifted at start 9 (thorough: 9 and 99) and over the whole sweep range; plus "
         "rebuild (every single state), sequential and fresh-interpreter (hash seed) histories. Non-trivial = the "
         "form consumes at least one object of a shifted counter class (measured from the counters before/after "
         "the build); rebuild / sequential / fresh-interpreter cases always count"
@@ -680,7 +719,7 @@ def main(argv):
         "pair_states": n_pairs,
         "multi_counter_states_total": len(multi),
         "starts_for_states_shifting_3_or_more_counters": multi_set,
-        "starts_for_counters_a_form_does_not_consume": IRRELEVANT,
+        "starts_for_counters_a_form_does_not_consume": irrelevant_set,
         "sweep_absolute_start_range_per_counter": [0, hi],
         "hash_seeds": seeds,
         "hash_seed_derived_from_VERIF_SEED": derived,
